@@ -2,6 +2,7 @@ package parse
 
 import (
 	"log"
+	"math"
 	"os"
 	"path"
 	"sort"
@@ -207,6 +208,41 @@ LFOR:
 	p.tarsFile.Module.Enum = append(p.tarsFile.Module.Enum, enum)
 }
 
+// checkNumber reports a number that is not a value of the type it is given to.
+func (p *Parse) checkNumber(ty *ast.VarType) {
+	if p.tk.T == token.Float {
+		if ty.Type != token.TFloat && ty.Type != token.TDouble {
+			p.parseErr("type " + token.Value(ty.Type) + " does not accept the fractional number " + p.tk.S.S)
+		}
+		return
+	}
+	var lo, hi int64
+	switch ty.Type {
+	case token.TBool:
+		p.parseErr("type bool accepts true or false")
+	case token.TByte:
+		lo, hi = math.MinInt8, math.MaxInt8
+		if ty.Unsigned {
+			lo, hi = 0, math.MaxUint8
+		}
+	case token.TShort:
+		lo, hi = math.MinInt16, math.MaxInt16
+		if ty.Unsigned {
+			lo, hi = 0, math.MaxUint16
+		}
+	case token.TInt:
+		lo, hi = math.MinInt32, math.MaxInt32
+		if ty.Unsigned {
+			lo, hi = 0, math.MaxUint32
+		}
+	default:
+		return
+	}
+	if p.tk.S.I < lo || p.tk.S.I > hi {
+		p.parseErr("number " + p.tk.S.S + " is out of the range of its type")
+	}
+}
+
 func (p *Parse) parseStructMemberDefault(m *ast.StructMember) {
 	m.DefType = p.tk.T
 	switch p.tk.T {
@@ -215,14 +251,16 @@ func (p *Parse) parseStructMemberDefault(m *ast.StructMember) {
 			// enum auto defined type ,default value is number.
 			p.parseErr("type does not accept number")
 		}
+		p.checkNumber(m.Type)
 		m.Default = p.tk.S.S
 	case token.Float:
 		if !token.IsNumberType(m.Type.Type) {
 			p.parseErr("type does not accept number")
 		}
+		p.checkNumber(m.Type)
 		m.Default = p.tk.S.S
 	case token.String:
-		if token.IsNumberType(m.Type.Type) {
+		if m.Type.Type != token.TString {
 			p.parseErr("type does not accept string")
 		}
 		m.Default = `"` + p.tk.S.S + `"`
@@ -237,6 +275,10 @@ func (p *Parse) parseStructMemberDefault(m *ast.StructMember) {
 		}
 		m.Default = "false"
 	case token.Name:
+		if m.Type.Type != token.Name {
+			// an enumerator is a value of its enum only
+			p.parseErr("type does not accept the enumerator " + p.tk.S.S)
+		}
 		m.Default = p.tk.S.S
 	default:
 		p.parseErr("default value format error")
@@ -487,6 +529,7 @@ func (p *Parse) parseConst() {
 		if !token.IsNumberType(m.Type.Type) {
 			p.parseErr("type does not accept number")
 		}
+		p.checkNumber(m.Type)
 		m.Value = p.tk.S.S
 	case token.String:
 		if token.IsNumberType(m.Type.Type) {
